@@ -92,7 +92,7 @@ theorem hasObjLeafX (p : Nat) : LeafX (fun s => HasObj s p) where
   setClosed := by objs_tac
   setStopping := by objs_tac
   setRestarting := by objs_tac
-  clearRestarting := by objs_tac
+  clearRestarting := fun b => by objs_tac
   setLoopStop := fun b => by objs_tac
   setSocketEvent := fun b => by objs_tac
   setSockReady := fun b => by objs_tac
@@ -136,7 +136,7 @@ theorem squiet_clearDone (s : State) : SQuiet s (clearDone s).2 := SQuiet.of_eq 
 theorem squiet_setSlot (v : Option String) (s : State) : SQuiet s (setSlot v s).2 := squiet_modA _ s
 theorem squiet_setStopping (s : State) : SQuiet s (setStopping s).2 := squiet_modA _ s
 theorem squiet_setRestarting (s : State) : SQuiet s (setRestarting s).2 := squiet_modA _ s
-theorem squiet_clearRestarting (s : State) : SQuiet s (clearRestarting s).2 := squiet_modA _ s
+theorem squiet_clearRestarting (b : Bool) (s : State) : SQuiet s (clearRestarting b s).2 := squiet_modA _ s
 theorem squiet_setLoopStop (b : Bool) (s : State) : SQuiet s (setLoopStop b s).2 := squiet_modA _ s
 theorem squiet_setSocketEvent (b : Bool) (s : State) : SQuiet s (setSocketEvent b s).2 := squiet_modA _ s
 theorem squiet_setSockReady (b : Bool) (s : State) : SQuiet s (setSockReady b s).2 := squiet_modA _ s
@@ -420,7 +420,7 @@ theorem setStopping_si : Pres (SI J) setStopping := SI.pres_quiet squiet_setStop
 @[aesop safe apply (rule_sets := [Sg])]
 theorem setRestarting_si : Pres (SI J) setRestarting := SI.pres_quiet squiet_setRestarting pidLeafX.setRestarting
 @[aesop safe apply (rule_sets := [Sg])]
-theorem clearRestarting_si : Pres (SI J) clearRestarting := SI.pres_quiet squiet_clearRestarting pidLeafX.clearRestarting
+theorem clearRestarting_si (b : Bool) : Pres (SI J) (clearRestarting b) := SI.pres_quiet (squiet_clearRestarting b) (pidLeafX.clearRestarting b)
 @[aesop safe apply (rule_sets := [Sg])]
 theorem setLoopStop_si (b : Bool) : Pres (SI J) (setLoopStop b) := SI.pres_quiet (squiet_setLoopStop b) (pidLeafX.setLoopStop b)
 @[aesop safe apply (rule_sets := [Sg])]
